@@ -121,18 +121,30 @@ def r2_packing(ctx):
                         it_sl = f.slice_of_operand(t["a"][0], at=(bi, f.INF))
                         nitems = None
                         import re as _re
+                        item_max = 255
                         for l in it_sl["locals"]:
                             m = _re.match(r"^\[u8; (\d+)\]$", f.local_ty(l))
                             if m:
                                 nitems = int(m.group(1))
+                        if nitems is None:
+                            # `[self.a as u32, self.b as u32, ..].into_iter().fold(..)`: the items are the literal's operands
+                            for l in it_sl["locals"]:
+                                m = _re.match(r"^\[u(?:16|32|64|size); (\d+)\]$", f.local_ty(l))
+                                if not m:
+                                    continue
+                                for d in f.defs(l):
+                                    if d["kind"] == "assign" and d["rv"][0] == "agg" and d["rv"][1].get("k") == "array" and len(d["rv"][2]) == int(m.group(1)):
+                                        ivs = [an.eval_op(f, o, (d["bb"], d["si"])) for o in d["rv"][2]]
+                                        if all(iv is not None and iv[0] >= 0 for iv in ivs):
+                                            nitems, item_max = len(ivs), max(iv[1] for iv in ivs)
                         ok = k is not None and k[0] == k[1] and init is not None and nitems is not None
                         acc = init[1] if ok else None
                         if ok:
                             for _ in range(nitems):
-                                if acc >= (1 << (32 - k[0])) or 255 >= (1 << k[0]):
+                                if acc >= (1 << (32 - k[0])) or item_max >= (1 << k[0]):
                                     ok = False
                                     break
-                                acc = (acc << k[0]) | 255
+                                acc = (acc << k[0]) | item_max
                         n += (nitems or 1)
                         for step in range(1, (nitems or 1)):
                             ctx.ob("R2", "disjoint-bits#fold-step%d" % step, ok, "step %d of the fold below" % step, cf, st["sp"]["at"], nontrivial=False)
